@@ -14,9 +14,9 @@ import types
 from simkit import sched
 
 TOOL = 4
-_MODES = {}      # code object -> 2 (opcode file) | 1 (line file)
+_MODES = {}      # code object -> 2 (per instruction at 'opcode') | 3 (per instruction only at 'opcode+') | 1 (lines)
 _STATE = {"installed": False, "gran": "sync"}
-GRAN_LEVEL = {"sync": 0, "line": 1, "opcode": 2}
+GRAN_LEVEL = {"sync": 0, "line": 1, "opcode": 2, "opcode+": 3}
 _level = 0
 
 
@@ -27,9 +27,9 @@ def set_granularity(gran):
 
 
 def _on_instruction(code, offset):
-    if _level == 2:
+    if _level >= 2:
         sim = sched._CURRENT
-        if sim is not None:
+        if sim is not None and _level >= _MODES.get(code, 9):
             sim.preempt()
 
 
@@ -37,7 +37,7 @@ def _on_line(code, line):
     if _level:
         sim = sched._CURRENT
         if sim is not None:
-            if _level == 2 and _MODES.get(code) == 2:
+            if _level >= _MODES.get(code, 9):
                 return  # this file is traced per instruction in this run
             sim.preempt()
 
@@ -62,7 +62,7 @@ def install(files):
             _collect(o.__code__, files, found)
     for code, mode in found.items():
         ev = mon.events.LINE
-        if mode == 2:
+        if mode in (2, 3):
             ev |= mon.events.INSTRUCTION
         mon.set_local_events(TOOL, code, ev)
     _MODES.update(found)
